@@ -19,7 +19,7 @@ from fractions import Fraction
 
 import numpy as np
 
-from ..exact import Pure, case_rng, describe, present_nd
+from ..exact import Pure, case_rng, describe, present_nd, strict_fp_call
 from ..pool import run_pool, worker_driver
 from . import c14_skcert as skc
 from toqito.matrix_props import is_block_positive, sk_operator_norm
@@ -41,6 +41,10 @@ RULE = ("pure states: every pair of local dimensions in {2,3,4}^2 x every Schmid
         "Presentation: every ndarray argument of every toqito call (state vectors, column vectors, density matrices / operators, dim arrays) is a re-presentation "
         "of the same values determined by the case (C / Fortran / strided / permuted-stride layout; zero imaginary part also as float64, integer values also as "
         "int64; dim arrays keep their integer dtype), and after every call all arguments are compared with a deep snapshot. "
+        "Strict-fp stream: on every planted pure state (1-D vector, column vector, density matrix; list dims) negativity, log_negativity, is_product, schmidt_rank, "
+        "entanglement_of_formation, schmidt_decomposition, l1_norm_coherence, purity, von_neumann_entropy (and concurrence on 2x2), and on both factors and the product of every "
+        "additive case von_neumann_entropy and purity, are called once in the default state and once with NumPy's error state set to raise for invalid / divide / overflow and the "
+        "corresponding RuntimeWarnings turned into errors (harness.exact.StrictFP): the same value must come back. "
         "S(k) operator norm with a CERTIFIED two-sided bracket (process pool): projections onto completely entangled subspaces (span{|i,j> - |i+1,j-1>}: the first r basis "
         "vectors, seeded sub-selections and random r-dimensional subspaces of it, also rotated by Haar local unitaries and scaled by 5/2, 3/10) of every rank r <= (dA-1)(dB-1) on 2x3, "
         "2x4, 3x3 and ranks 2, 3, 6 on 3x4 (all six in the thorough tier), projections containing a product vector, random positive semidefinite operators (k = 1 .. min(dA,dB)), "
@@ -294,6 +298,52 @@ def _call(fn, *a, **k):
     return out
 
 
+def _plain_call(fn, *a):
+    """('ok', value) | ('raise', 'Type: msg') in the default NumPy error state, arguments handed over as they are (no presentation, no random draws)"""
+    try:
+        with warnings.catch_warnings(), contextlib.redirect_stdout(io.StringIO()):
+            warnings.simplefilter("ignore")
+            return "ok", fn(*a)
+    except Exception as e:  # noqa: BLE001
+        return "raise", f"{type(e).__name__}: {str(e)[:200]}"
+
+
+def _same_value(v, w):
+    """two results of the same call on the same objects: equal (nested tuples / lists / None / arrays / scalars), floats up to 1e-12 absolute"""
+    if v is None or w is None:
+        return v is None and w is None
+    if isinstance(v, (tuple, list)) or isinstance(w, (tuple, list)):
+        return isinstance(v, (tuple, list)) and isinstance(w, (tuple, list)) and len(v) == len(w) and all(_same_value(x, y) for x, y in zip(v, w))
+    try:
+        x, y = np.asarray(v), np.asarray(w)
+        if x.shape != y.shape:
+            return False
+        if x.dtype.kind in "biu" or y.dtype.kind in "biu":
+            return bool(np.array_equal(x, y))
+        return bool(np.array_equal(x, y) or np.max(np.abs(x - y)) <= 1e-12)
+    except Exception:  # noqa: BLE001
+        return False
+
+
+def strict_fp_same(t, name, fn, args, what, **info):
+    """the call in the default state and again under harness.exact.StrictFP (NumPy's error state 'raise' for invalid / divide / overflow, the corresponding RuntimeWarnings
+    errors): a specified value is a function of the arguments, so the same value must come back.  sqrt / log / division evaluated on the exact zeros or the rounding residues of
+    a rank-deficient state and masked afterwards (np.where) is invisible in the default state and raises here.  The default-state value is the one the surrounding check compares
+    with its closed form."""
+    st0, v0 = _plain_call(fn, *args)
+    if st0 != "ok":
+        return   # judged by the surrounding check
+    with contextlib.redirect_stdout(io.StringIO()):
+        st1, v1 = strict_fp_call(fn, *args)
+    t.ctx.count(f"strict-fp/{name}")
+    if st1 != "ok":
+        t.fail(f"{name}({what}): value depends on NumPy's floating-point error state: {str(v0)[:80]!r} in the default state, {v1} under np.seterr(invalid/divide/over='raise')",
+               function=name, stream="strict-fp", impl_default_state=repr(v0)[:300], impl_strict_state=v1, **info)
+    elif not _same_value(v1, v0):
+        t.fail(f"{name}({what}): value depends on NumPy's floating-point error state: {str(v0)[:80]!r} in the default state, {str(v1)[:80]!r} under np.seterr(invalid/divide/over='raise')",
+               function=name, stream="strict-fp", impl_default_state=repr(v0)[:300], impl_strict_state=repr(v1)[:300], **info)
+
+
 def H2(p):
     return float(-sum(float(x) * math.log2(float(x)) for x in p if x > 0))
 
@@ -545,6 +595,23 @@ def check_pure(ctx, case):
         t.fail(f"von_neumann_entropy(|psi><psi|) = {res[1]!r}", function="von_neumann_entropy", impl=repr(res[1]), expected=0.0)
     # ---- Schmidt decomposition
     check_schmidt_decomposition(ctx, t, case, psi, tr, reg)
+    # ---- strict-fp stream: every function once more with NumPy's error state set to raise (planted pure states are rank-deficient: exact zeros and rounding residues
+    #      in every spectrum the functions look at); same value as in the default state
+    dl = [dA, dB]
+    where = f"Schmidt coefficients {case['s']} on {dA}x{dB}"
+    for form in ("vec1d", "col", "dm"):
+        x = inputs[form]
+        for name, fn in (("negativity", negativity), ("log_negativity", log_negativity), ("is_product", is_product), ("schmidt_rank", schmidt_rank)):
+            strict_fp_same(t, name, fn, (x, dl), f"{form}, dim=list; {where}", input=form, dim_form="list")
+        if form != "vec1d":
+            strict_fp_same(t, "entanglement_of_formation", entanglement_of_formation, (x, dl), f"{form}, dim=list; {where}", input=form, dim_form="list")
+        if form != "dm":
+            strict_fp_same(t, "schmidt_decomposition", schmidt_decomposition, (x, dl), f"{form}, dim=list; {where}", input=form, dim_form="list")
+        strict_fp_same(t, "l1_norm_coherence", l1_norm_coherence, (x,), f"{form}; {where}", input=form)
+    strict_fp_same(t, "purity", purity, (rho,), f"|psi><psi|; {where}", input="dm")
+    strict_fp_same(t, "von_neumann_entropy", von_neumann_entropy, (rho,), f"|psi><psi|; {where}", input="dm")
+    if dA == 2 and dB == 2:
+        strict_fp_same(t, "concurrence", concurrence, (rho,), f"|psi><psi|; {where}", input="dm")
 
 
 def _exact_c(z):
@@ -768,6 +835,10 @@ def check_additive(ctx, case):
     want = float(sum(x * x for x in q1) * sum(x * x for x in q2))
     if not (p1[0] == p2[0] == p12[0] == "ok") or not close(p12[1], want, TOL) or not close(p1[1] * p2[1], want, TOL):
         t.fail(f"purity is not multiplicative on a product state: {p12[1]!r} vs exact {want!r}", function="purity", impl=[repr(p1[1]), repr(p2[1]), repr(p12[1])], expected=want)
+    # strict-fp: the factors may be rank-deficient (zero parts in q1 / q2) and the product then is
+    for nm, x in (("rho", r1), ("sigma", r2), ("rho (x) sigma", np.kron(r1, r2))):
+        strict_fp_same(t, "von_neumann_entropy", von_neumann_entropy, (x,), f"{nm}; spectra {case['q1']}, {case['q2']}", input=nm)
+        strict_fp_same(t, "purity", purity, (x,), f"{nm}; spectra {case['q1']}, {case['q2']}", input=nm)
     # log-negativity / negativity of a product of two bipartite pure states is covered by check_pure; here: product across the cut is unentangled
     res = _call(negativity, np.kron(r1, r2), [d1, d2])
     if res[0] != "ok" or not close(res[1], 0.0, TOL):
